@@ -61,6 +61,13 @@ func flagsPart(t *testing.T, run *ev.Run) {
 			d3 /= 4
 		}
 		runChains(run, v, d3, ev.Tier() == "thorough")
+		// chains through callbacks made by native contracts (set up after the
+		// tables above, whose chain state stays what it was)
+		cbLog := &setupLog{}
+		cs := v.setupCallbackState(ws, cbLog)
+		run.Note("callback_setup_steps_failed_"+st, cbLog.Failed)
+		run.Obs("callback_setup_steps_ok", int64(len(cbLog.OK)))
+		runCallbacks(run, v, ws, cs)
 		if st == "all" {
 			// the same natives x flag sets table on a chain whose committee has put
 			// every non-safe native method on Policy's fee whitelist: the call
@@ -73,6 +80,13 @@ func flagsPart(t *testing.T, run *ev.Run) {
 			run.Note("setup_steps_failed_"+st+w.variant, log2.Failed)
 			if n > 0 {
 				runNatives(run, w, ws2, entry)
+				// ... and the callback chains with the probes' callback and relay
+				// methods on the whitelist too (a whitelisted method is loaded
+				// through its own branch of the call path)
+				cs2 := w.setupCallbackState(ws2, log2)
+				run.Obs("probe_methods_put_on_the_fee_whitelist", int64(w.whitelistProbeMethods(cs2, log2)))
+				run.Note("setup_steps_failed_"+st+w.variant+"_callbacks", log2.Failed)
+				runCallbacks(run, w, ws2, cs2)
 			}
 		}
 	}
@@ -103,6 +117,32 @@ func (v *env) whitelistNativeMethods(log *setupLog) int {
 			}
 		}
 	}
+	v.refreshNatives()
+	return n
+}
+
+// whitelistProbeMethods puts the callback entry points of the callback probes
+// and the relay methods of probes B and C on Policy's fee whitelist.
+func (v *env) whitelistProbeMethods(cs *cbState, log *setupLog) int {
+	pol := v.natives[nativenames.Policy]
+	n := 0
+	put := func(c *neotest.Contract, name string, methods ...string) {
+		for _, m := range methods {
+			for _, md := range c.Manifest.ABI.Methods {
+				if md.Name != m {
+					continue
+				}
+				if v.chainTx(log, "whitelist "+name+"."+m, []neotest.Signer{v.val, v.com}, pol.Hash, "setWhitelistFeeContract", c.Hash, m, len(md.Parameters), int64(n%3)) {
+					n++
+				}
+			}
+		}
+	}
+	for _, c := range []*neotest.Contract{cs.H, cs.V, cs.S, cs.T} {
+		put(c, v.name(c.Hash), "onNEP17Payment", "oracleCb", "balanceOf", "transfer", "_deploy")
+	}
+	put(v.probes[1], "probeB", chainMethods...)
+	put(v.probes[2], "probeC", chainMethods...)
 	v.refreshNatives()
 	return n
 }
